@@ -184,10 +184,12 @@ Fixpoint chk_steps (n0 : nat) (st : stateF) (ops : list (op V)) (obs : list sobs
   | _, _ => DISAGREE
   end.
 
-(* bobs: None = the construction succeeded, with `keys0` the keys of _refsystems and `eq0` the anchor of
-   every target atom; Some e = it raised *)
+(* h is the heap observed BEFORE the map is built.  bobs: None = the construction succeeded, with bg / bt what
+   it did to the observable heap (nothing, in the model: every cell must be `Same`), `keys0` the keys of
+   _refsystems and `eq0` the anchor of every target atom; Some e = it raised *)
 Definition chk_c04 (h : heap V) (objs : list mol) (ref tgt : mol)
-    (bobs : option err) (keys0 eq0 : list nat) (ops : list (op V)) (obs : list sobs) : nat :=
+    (bobs : option err) (bg : list gobs) (bt : list tobs)
+    (keys0 eq0 : list nat) (ops : list (op V)) (obs : list sobs) : nat :=
   if mol_indet h ref then INDET else
   match buildF h objs ref tgt, bobs with
   | Err e, Some e' => if err_eqb e e' then AGREE else ERRMISMATCH
@@ -195,7 +197,9 @@ Definition chk_c04 (h : heap V) (objs : list mol) (ref tgt : mol)
       match mol_positions V h ref, mol_positions V h tgt with
       | Ok rps, Ok tps =>
           if existsb (closest_indet rps (map fst (e_refsys (s_map st)))) tps then INDET else
-          if nat_list_eqb (map fst (e_refsys (s_map st))) keys0 &&
+          if gheap_agree (length (gro h)) 0 (gro h) (gro (s_heap st)) (gexpand bg) &&
+             theap_agree (top h) (top (s_heap st)) (texpand bt) &&
+             nat_list_eqb (map fst (e_refsys (s_map st))) keys0 &&
              nat_list_eqb (map fst (e_ec (s_map st))) eq0
           then chk_steps (length (gro h)) st ops obs else DISAGREE
       | _, _ => ERRMISMATCH
